@@ -61,6 +61,9 @@ func (c *rangeValCopyChecker) VisitStmt(stmt ast.Stmt) {
 	if !ok || rng.Value == nil {
 		return
 	}
+	if id, ok := rng.Value.(*ast.Ident); ok && id.Name == "_" {
+		return // `for _, _ = range xs`: nothing is copied (and the blank identifier has no type)
+	}
 	typ := c.ctx.TypeOf(rng.Value)
 	if typ == nil {
 		return
